@@ -539,3 +539,21 @@ V("c20b-base-class-in-whitelist", "C20", {"rule": "C20b", "contains": "not-in-CM
   (EXPR, "    | set(CMPOPS.keys())\n", "    | set(CMPOPS.keys())\n    | {ast.cmpop}\n"))
 V("c20b-preserving-redundant-whitelist-entry", "C20", "silent",
   (EXPR, "    | set(CMPOPS.keys())\n", "    | set(CMPOPS.keys())\n    | {ast.Eq}\n"))
+
+# --- third batch: order-insensitive shortcuts in gate steps (C07f / C16a''), keyed draws (C02d)
+SIMSTEPS = "piquasso/_simulators/simulation_steps.py"
+V("c07f-contiguous-slice-shortcut", "C07", {"rule": "C07f", "contains": "len(modes)"},
+  (GSS, "    index = get_operator_index(modes)\n\n    state._C = connector.assign(\n        state._C, index, T.conjugate()",
+   "    index = (slice(min(modes), max(modes) + 1),) * 2 if max(modes) - min(modes) + 1 == len(modes) else get_operator_index(modes)\n\n    state._C = connector.assign(\n        state._C, index, T.conjugate()"))
+V("c07f-sorted-modes-in-gate-step", "C07", {"rule": "C07f", "contains": "sorted"},
+  (GSS, "    index = get_operator_index(modes)\n\n    state._C = connector.assign(\n        state._C, index, T.conjugate()",
+   "    index = get_operator_index(tuple(sorted(modes)))\n\n    state._C = connector.assign(\n        state._C, index, T.conjugate()"))
+V("c07f-preserving-order-sensitive-shortcut", "C07", "silent",
+  (GSS, "    index = get_operator_index(modes)\n\n    state._C = connector.assign(\n        state._C, index, T.conjugate()",
+   "    if tuple(modes) == tuple(range(modes[0], modes[0] + len(modes))):\n        index = (slice(modes[0], modes[0] + len(modes)),) * 2\n    else:\n        index = get_operator_index(modes)\n\n    state._C = connector.assign(\n        state._C, index, T.conjugate()"))
+V("c02d-draws-cached-by-count", "C02", {"rule": "C02d", "contains": "keyed-draw"},
+  (SIMSTEPS, "    detected_counts_by_mode = [\n        rng.choice(\n            number_of_detectable_counts,\n            size=multiplicity,\n            p=probabilities,\n        )\n        for probabilities in probabilities_by_mode\n    ]\n",
+   "    draws = {\n        count: rng.choice(number_of_detectable_counts, size=multiplicity, p=probabilities)\n        for count, probabilities in zip(actual_outcome, probabilities_by_mode)\n    }\n    detected_counts_by_mode = [draws[count] for count in actual_outcome]\n"))
+V("c02d-preserving-explicit-loop", "C02", "silent",
+  (SIMSTEPS, "    detected_counts_by_mode = [\n        rng.choice(\n            number_of_detectable_counts,\n            size=multiplicity,\n            p=probabilities,\n        )\n        for probabilities in probabilities_by_mode\n    ]\n",
+   "    detected_counts_by_mode = []\n    for probabilities in probabilities_by_mode:\n        detected_counts_by_mode.append(\n            rng.choice(number_of_detectable_counts, size=multiplicity, p=probabilities)\n        )\n"))
